@@ -102,6 +102,12 @@ func (f *FnVC) execInstr(st *State, in ssa.Instruction) {
 		f.guardCheck(st, x.Addr, true, x.Pos())
 		f.atStore(st, x, p, v)
 		f.storeAt(st, p, v, x.Val.Type())
+		if al, ok := x.Addr.(*ssa.Alloc); ok && v.Tuple == nil && x.Block() == al.Block() && singleAssignCell(al) {
+			if f.roCell == nil {
+				f.roCell = map[vkey]Val{}
+			}
+			f.roCell[vkey{al, f.curNode.it}] = v
+		}
 	case *ssa.Call:
 		res := f.call(st, x, &x.Call, x.Pos())
 		f.set(x, res)
@@ -349,6 +355,16 @@ func (f *FnVC) strConcat(st *State, a, b Term) Term {
 func (f *FnVC) unop(st *State, x *ssa.UnOp) {
 	switch x.Op {
 	case token.MUL: // load
+		if al, ok := x.X.(*ssa.Alloc); ok {
+			// a captured variable that is assigned once keeps its value whatever happens in between
+			if it, same := f.itFor(al.Block(), f.curNode); same {
+				if v, ok := f.roCell[vkey{al, it}]; ok {
+					v.Typ = x.Type()
+					f.set(x, v)
+					return
+				}
+			}
+		}
 		p := f.get(x.X)
 		f.nilCheck(st, x.X, p, x.Pos())
 		f.guardCheck(st, x.X, false, x.Pos())
